@@ -231,6 +231,60 @@ theorem C16_int_from_float_range (b : Bits) : i64Min ≤ intFromFloat b ∧ intF
       unfold clamp i64Min i64Max
       split <;> (try split) <;> omega
 
+/-! ## `floor`, `ceil`, `round` -/
+
+/-- the integer the three modes pick, stated with inequalities on the exact rational `n/d`:
+    floor is the largest integer below or at it, ceil the smallest at or above it -/
+theorem C16_roundInt_spec (n : Int) (d : Nat) (hd : 0 < d) :
+    (roundInt .floor n d * d ≤ n ∧ n < (roundInt .floor n d + 1) * d) ∧
+    ((roundInt .ceil n d - 1) * d < n ∧ n ≤ roundInt .ceil n d * d) := by
+  have hd' : (0 : Int) < d := by omega
+  have e1 := Int.mul_ediv_add_emod n d
+  have e2 := Int.emod_nonneg n (show (d : Int) ≠ 0 by omega)
+  have e3 := Int.emod_lt_of_pos n hd'
+  have f1 := Int.mul_ediv_add_emod (-n) d
+  have f2 := Int.emod_nonneg (-n) (show (d : Int) ≠ 0 by omega)
+  have f3 := Int.emod_lt_of_pos (-n) hd'
+  simp only [roundInt]
+  generalize n / (d : Int) = q at *
+  generalize n % (d : Int) = r at *
+  generalize (-n) / (d : Int) = q' at *
+  generalize (-n) % (d : Int) = r' at *
+  have m1 : q * (d : Int) = (d : Int) * q := Int.mul_comm _ _
+  have m2 : (q + 1) * (d : Int) = (d : Int) * q + d := by rw [Int.add_mul, m1]; omega
+  have m3 : (-q') * (d : Int) = -((d : Int) * q') := by rw [Int.neg_mul, Int.mul_comm]
+  have m4 : (-q' - 1) * (d : Int) = -((d : Int) * q') - d := by rw [Int.sub_mul, m3]; omega
+  refine ⟨⟨by omega, by omega⟩, ⟨by omega, by omega⟩⟩
+
+example : roundInt .floor (-7) 2 = -4 ∧ roundInt .ceil (-7) 2 = -3 ∧ roundInt .round (-7) 2 = -4 ∧
+    roundInt .round 5 2 = 3 ∧ roundInt .round 1 4 = 0 := by decide
+
+/-- `floor`/`ceil`/`round` on ALL bit patterns: a NaN stays a NaN; a pattern with exponent field
+    ≥ 1075 (`|x| ≥ 2^52`, ±inf) is already integral and is returned unchanged; any other pattern
+    gives a finite pattern that denotes EXACTLY the integer the exact value rounds to (in the mode's
+    sense, `round` = half away from zero), with the sign of that integer, and a zero result keeps
+    the operand's sign (`floor(-0.0) = -0.0`, `ceil(-0.3) = -0.0`, `round(-0.3) = -0.0`) -/
+theorem C16_round_spec (mode : Rounding) (x : Bits) :
+    (isNaN x = true → isNaN (roundBits mode x) = true) ∧
+    (isNaN x = false → expField x ≥ 1075 → roundBits mode x = x) ∧
+    (isNaN x = false → expField x < 1075 →
+      let n := roundInt mode (finiteValue x).1 (finiteValue x).2
+      let r := roundBits mode x
+      isNaN r = false ∧ isInf r = false ∧
+      (finiteValue r).1 = n * (finiteValue r).2 ∧
+      (n = 0 → r = if sign x then 0x8000000000000000 else 0) ∧
+      (n ≠ 0 → sign r = decide (n < 0))) := roundBits_spec mode x
+
+example : roundBits .floor 0xC00C000000000000 = 0xC010000000000000 := by decide  -- floor(-3.5) = -4
+example : roundBits .round 0x4004000000000000 = 0x4008000000000000 := by decide  -- round(2.5) = 3
+example : roundBits .ceil 0xBFD3333333333333 = 0x8000000000000000 := by decide   -- ceil(-0.3) = -0.0
+example : isNaN 0xC00C000000000000 = false ∧ expField 0xC00C000000000000 < 1075 := by decide
+
+/-- these three math instructions do not depend on libm at all -/
+theorem C16_math_exact_ones (libm libm' : Math1 → Bits → Bits) (x : Bits) :
+    math1 libm .floor x = math1 libm' .floor x ∧ math1 libm .ceil x = math1 libm' .ceil x ∧
+    math1 libm .round x = math1 libm' .round x := ⟨rfl, rfl, rfl⟩
+
 /-! ## `float_from_int` -/
 
 /-- for every 64-bit integer `n` the result is a finite pattern with the sign of `n`; it denotes `n`
